@@ -140,19 +140,31 @@ var c09Families = []magFamily{
 	{"zero-exp-index-like", "a[?@ == `0e%M`]", true, "20"},
 }
 
-func c09Doc(mag string) any {
-	a := make([]any, 10)
+// size classes of the subject data: the implementation may pick a different algorithm for long
+// inputs (direct indexing for short or single-byte strings, a walk for long multi-byte ones), and the
+// magnitude must not drive any of them.  Class 0: 10 elements / characters; class 1: 300; class 2: 5000.
+var c09Classes = []struct {
+	rep  int
+	base string
+}{{1, "20"}, {30, "700"}, {500, "12000"}}
+
+func c09Doc(mag string, cls int) any {
+	rep := c09Classes[cls].rep
+	a := make([]any, 10*rep)
 	for i := range a {
 		a[i] = json.Number(fmt.Sprint(i))
 	}
 	aa := []any{a, a, a}
-	return map[string]any{"a": a, "aa": aa, "s": "abcabcabca", "m": "aé𝌆béé𝌆ab", "c": "a,b,c,d,e", "n": json.Number(mag), "big": json.Number("1e" + mag), "z": json.Number("0e" + mag)}
+	return map[string]any{"a": a, "aa": aa, "s": strings.Repeat("abcabcabca", rep), "m": strings.Repeat("aé𝌆béé𝌆ab", rep), "c": strings.Repeat("a,b,c,d,e", rep), "n": json.Number(mag), "big": json.Number("1e" + mag), "z": json.Number("0e" + mag)}
 }
 
-func c09MagN(c *Ctx) int { return len(c09Families) * 2 }
+func c09MagN(c *Ctx) int { return len(c09Families) * 2 * len(c09Classes) }
 
 func c09Mag(c *Ctx, idx int) {
+	cls := idx / (len(c09Families) * 2)
+	idx %= len(c09Families) * 2
 	f := c09Families[idx/2]
+	f.base = c09Classes[cls].base
 	neg := idx%2 == 1
 	if neg && !f.neg {
 		return
@@ -170,13 +182,13 @@ func c09Mag(c *Ctx, idx int) {
 		return strings.ReplaceAll(t, "%M", m)
 	}
 	const budget = 20_000_000
-	base := c.measure(inst(f.base), c09Doc(f.base), budget)
+	base := c.measure(inst(f.base), c09Doc(f.base, cls), budget)
 	worst := base
 	for _, m := range c09Mags {
 		text := inst(m)
-		k := c.measure(text, c09Doc(m), budget)
-		c.Nontrivial(f.name, m, fmt.Sprint(neg))
-		feats := map[string]string{"family": f.name, "negative": fmt.Sprint(neg)}
+		k := c.measure(text, c09Doc(m, cls), budget)
+		c.Nontrivial(f.name, m, fmt.Sprint(neg), fmt.Sprint(cls))
+		feats := map[string]string{"family": f.name, "negative": fmt.Sprint(neg), "size_class": fmt.Sprint(cls)}
 		if k.out.Panic != nil {
 			c.Report(Violation{Rule: "C09/panic", Expr: text, Got: ShowOut(k.out), Features: feats})
 			continue
@@ -195,7 +207,7 @@ func c09Mag(c *Ctx, idx int) {
 	if int64(worst.steps) > c.Counters["max_steps_magnitude_family"] {
 		c.Counters["max_steps_magnitude_family"] = int64(worst.steps)
 	}
-	c.Sample(map[string]any{"family": f.name, "negative": neg, "base_expr": inst(f.base), "base_steps": base.steps, "base_alloc": base.alloc, "worst_steps": worst.steps, "magnitudes": c09Mags})
+	c.Sample(map[string]any{"family": f.name, "negative": neg, "size_class": cls, "base_expr": inst(f.base), "base_steps": base.steps, "base_alloc": base.alloc, "worst_steps": worst.steps, "magnitudes": c09Mags})
 }
 
 // ---- R2: growth along scaling families
